@@ -37,6 +37,8 @@ extern convertToBool
 func isComparisonOperator
   props C06
   option pure
+  ensures the-comparison-operators-in-any-letter-case-and-nothing-else: result <==> (strings.EqualFold(op, "==") || strings.EqualFold(op, "=") || strings.EqualFold(op, "!=") || strings.EqualFold(op, "<>") || strings.EqualFold(op, ">") || strings.EqualFold(op, "<") || strings.EqualFold(op, ">=") || strings.EqualFold(op, "<=") || strings.EqualFold(op, "LIKE") || strings.EqualFold(op, "IS"))
+  loop 1 invariant forall(j, 0, $i, !strings.EqualFold(op, $s[j])) && len($s) == 10 && $s[0] == "==" && $s[1] == "=" && $s[2] == "!=" && $s[3] == "<>" && $s[4] == ">" && $s[5] == "<" && $s[6] == ">=" && $s[7] == "<=" && $s[8] == "LIKE" && $s[9] == "IS"
 
 extern isLogicalOperator
   props C06
@@ -259,13 +261,18 @@ func isStringLiteral
   option pure
   ensures text-between-a-pair-of-quotes-of-one-kind: result <==> (len(s) >= 2 && ((s[0] == 39 && s[len(s) - 1] == 39) || (s[0] == 34 && s[len(s) - 1] == 34)))
 
-extern isIdentifier
+func isIdentifier
   props C06
   option pure
+  ensures a-name-starts-with-a-letter-or-an-underscore-and-goes-on-with-letters-digits-and-the-path-characters: result <==> (len(s) > 0 && (isLetter(s[0]) || s[0] == 95) && forall(j, 1, len(s), isLetter(s[j]) || isDigit(s[j]) || s[j] == 95 || s[j] == 46 || s[j] == 91 || s[j] == 93 || s[j] == 39 || s[j] == 34 || s[j] == 36))
+  loop 1 invariant 1 <= i && i <= len(s) && forall(j, 1, i, isLetter(s[j]) || isDigit(s[j]) || s[j] == 95 || s[j] == 46 || s[j] == 91 || s[j] == 93 || s[j] == 39 || s[j] == 34 || s[j] == 36)
+  loop 1 decreases len(s) - i
 
-extern isOperator
+func isOperator
   props C06
   option pure
+  ensures the-arithmetic-comparison-and-word-operators-in-any-letter-case-and-nothing-else: result <==> (strings.EqualFold(s, "+") || strings.EqualFold(s, "-") || strings.EqualFold(s, "*") || strings.EqualFold(s, "/") || strings.EqualFold(s, "%") || strings.EqualFold(s, "^") || strings.EqualFold(s, "=") || strings.EqualFold(s, "==") || strings.EqualFold(s, "!=") || strings.EqualFold(s, "<>") || strings.EqualFold(s, ">") || strings.EqualFold(s, "<") || strings.EqualFold(s, ">=") || strings.EqualFold(s, "<=") || strings.EqualFold(s, "AND") || strings.EqualFold(s, "OR") || strings.EqualFold(s, "NOT") || strings.EqualFold(s, "LIKE") || strings.EqualFold(s, "IS"))
+  loop 1 invariant forall(j, 0, $i, !strings.EqualFold(s, $s[j])) && len($s) == 19 && $s[0] == "+" && $s[1] == "-" && $s[2] == "*" && $s[3] == "/" && $s[4] == "%" && $s[5] == "^" && $s[6] == "=" && $s[7] == "==" && $s[8] == "!=" && $s[9] == "<>" && $s[10] == ">" && $s[11] == "<" && $s[12] == ">=" && $s[13] == "<=" && $s[14] == "AND" && $s[15] == "OR" && $s[16] == "NOT" && $s[17] == "LIKE" && $s[18] == "IS"
 
 func parseFunctionCall
   props C06
